@@ -195,6 +195,17 @@ def rule_delims(ck):
             ck.ob("table.delimiters", f"{k}/namespace-parts-then-name", "as_parts" in a or "namespace" in a, f"path = {a}", f.loc(c.bb))
         else:
             ck.ob("table.delimiters", f"{k}/path-components", True, f"path = {a}", f.loc(c.bb))
+    # what feeds the file index: all components of each source path, in order, converted to text and nothing else
+    # (get() re-creates the same sequence from the template, root component included)
+    src = [f2 for p2, f2 in prog.fns.items() if p2.endswith("::file_path_with_lines_pairs")]
+    if ck.ob("table.delimiters", "file-index-feed/exists", len(src) == 1, "", ""):
+        fs = prog.with_closures(src[0].path)
+        for x in fs:
+            ck.saw(x)
+        comps = [(x, c) for x in fs for c in x.calls() if c.name in ("std::path::Path::iter", "std::path::Path::components")]
+        shaped = [(x, c) for x in fs for c in x.calls() if c.name.startswith("std::iter::Iterator::") and c.gargs and re.search(r"std::path::(Iter|Components)\b", c.gargs[0])]
+        bad = sorted({c.name.rsplit("::", 1)[-1] for x, c in shaped if c.name.rsplit("::", 1)[-1] != "map"})
+        ck.ob("table.delimiters", "file-index-feed/all-path-components-in-order", len(comps) == 1 and not bad, f"{len(comps)} component iterators; adapters over them: {sorted({c.name.rsplit('::', 1)[-1] for x, c in shaped})}", src[0].loc(), what="the file index is fed a filtered / reordered component sequence, so templates that name the dropped components (absolute paths: the root) select nothing and others select too much")
 
 
 PSI = "debugger::debugee::dwarf::utils::PathSearchIndex::<T>"
